@@ -15,7 +15,7 @@ theorem locateSound_of_ok (a : Adapter) (hok : AdapterOK a) (flags : Nat) :
 
 /-- `prefilter_safe_partial` without the soundness hypothesis -/
 theorem prefilter_safe_partial_unconditional (a : Adapter) (hok : AdapterOK a) (read beyond : Bytes)
-    (hdom : safeDomain a read = true) : matchToFiltered a read beyond = matchTo a read :=
+    (hdom : asciiNoNul read = true) : matchToFiltered a read beyond = matchTo a read :=
   prefilter_safe_partial a hok (locateSound_of_ok a hok (flagsOf a)) read beyond hdom
 
 end Cutadapt.C07
